@@ -19,6 +19,40 @@ void __sanitizer_finish_switch_fiber(void *fake_stack_save, const void **bottom_
 
 namespace __cxxabiv1 { struct __cxa_eh_globals; extern "C" __cxa_eh_globals* __cxa_get_globals() throw(); }
 
+#if !SIM_ASAN
+// Minimal x86-64 context switch (callee-saved registers, mxcsr, x87 control word).  swapcontext() costs two
+// sigprocmask system calls per switch; a simulated solve makes millions of switches.
+extern "C" void amgsim_switch(void **from_sp, void *to_sp);
+asm(R"(
+.text
+.globl amgsim_switch
+.type amgsim_switch,@function
+amgsim_switch:
+    pushq %rbp
+    pushq %rbx
+    pushq %r12
+    pushq %r13
+    pushq %r14
+    pushq %r15
+    subq $8, %rsp
+    stmxcsr (%rsp)
+    fnstcw 4(%rsp)
+    movq %rsp, (%rdi)
+    movq %rsi, %rsp
+    ldmxcsr (%rsp)
+    fldcw 4(%rsp)
+    addq $8, %rsp
+    popq %r15
+    popq %r14
+    popq %r13
+    popq %r12
+    popq %rbx
+    popq %rbp
+    ret
+.size amgsim_switch,.-amgsim_switch
+)");
+#endif
+
 namespace sim {
 
 // two stack classes: team members run only parallel-region bodies (small), MPI ranks run whole programs (large).
@@ -33,6 +67,7 @@ static const size_t EH_SIZE = 2 * sizeof(void*);
 struct Fiber {
     int id = 0;
     ucontext_t uc;
+    void *sp = 0;
     char *stack = 0; size_t stack_size = 0;
     enum { RUNNABLE, BLOCKED, DONE } state = RUNNABLE;
     entry_t fn = 0; void *arg = 0;
@@ -116,7 +151,11 @@ void switch_to(Fiber *to) {
     else { bottom = to->stack; size = to->stack_size; }
     __sanitizer_start_switch_fiber(from->state == Fiber::DONE ? 0 : &from->fake_stack, bottom, size);
 #endif
+#if SIM_ASAN
     swapcontext(&from->uc, &to->uc);
+#else
+    amgsim_switch(&from->sp, to->sp);
+#endif
     // back on 'from'
 #if SIM_ASAN
     {
@@ -265,11 +304,23 @@ Fiber* spawn(entry_t fn, void *arg, Ctx *ctx, Team *team, int tid, int starve_ke
     f->prio = (g.cfg.strategy == PCT) ? (long)(g.srng.next() >> 2) : 0;
 #if !SIM_ASAN
     // pre-dirtied stack: whatever a fresh frame finds there must not matter (uninitialised stack arrays)
-    { size_t d = 48u << 10; memset(f->stack + f->stack_size - d, g_stack_fill, d); }
+    { size_t d = 8u << 10; memset(f->stack + f->stack_size - d, g_stack_fill, d); }
 #endif
+#if SIM_ASAN
     getcontext(&f->uc);
     f->uc.uc_stack.ss_sp = f->stack; f->uc.uc_stack.ss_size = f->stack_size; f->uc.uc_link = 0;
     makecontext(&f->uc, (void(*)())trampoline, 0);
+#else
+    {
+        // initial frame for amgsim_switch: [mxcsr|fpucw][r15][r14][r13][r12][rbx][rbp][return address -> trampoline]
+        uintptr_t top = ((uintptr_t)(f->stack + f->stack_size)) & ~(uintptr_t)15;
+        uint64_t *q = (uint64_t*)(top - 16);        // return address slot (16-byte aligned, so rsp = 8 mod 16 on entry)
+        q[0] = (uint64_t)(void(*)())trampoline; q[1] = 0;
+        for (int i = 1; i <= 6; ++i) q[-i] = 0;     // rbp, rbx, r12..r15
+        uint32_t *cw = (uint32_t*)(q - 7); cw[0] = 0x1F80; cw[1] = 0x037F;
+        f->sp = (void*)(q - 7);
+    }
+#endif
     f->state = Fiber::RUNNABLE; ++g.nrunnable; ++g.nfibers;
     g.fibers.push_back(f);
     return f;
